@@ -49,6 +49,16 @@ Theorem C20_adds_realloc : forall l m m', synced m -> adds m l = Ok m' ->
   cap (m_raw m) < len (m_raw m') -> cap (m_raw m) < cap (m_raw m').
 Proof. exact adds_realloc. Qed.
 Print Assumptions C20_adds_realloc.
+(* Build of any list of text / ERROR-CODE / UNKNOWN-ATTRIBUTES / raw setters *)
+Theorem C20_setters_no_realloc : forall ss l m m', synced m -> setters_tvs ss = Some l -> apply_setters m ss = (m', Ok tt) ->
+  Forall (fun tv => lenN (snd tv) < 65536) l -> len (m_raw m) + 65544 * lenN l < 4294967296 ->
+  len (m_raw m') <= cap (m_raw m) -> cap (m_raw m') = cap (m_raw m).
+Proof. exact setters_no_realloc. Qed.
+Theorem C20_setters_realloc : forall ss l m m', synced m -> setters_tvs ss = Some l -> apply_setters m ss = (m', Ok tt) ->
+  Forall (fun tv => lenN (snd tv) < 65536) l -> len (m_raw m) + 65544 * lenN l < 4294967296 ->
+  cap (m_raw m) < len (m_raw m') -> cap (m_raw m) < cap (m_raw m').
+Proof. exact setters_realloc. Qed.
+Print Assumptions C20_setters_realloc.
 Theorem C20_setter_is_add : forall m s m' tv, setter_tv s = Some tv -> apply_setter m s = Ok m' ->
   add m (fst tv) (snd tv) = Ok m'.
 Proof. exact setter_is_add. Qed.
